@@ -293,6 +293,33 @@ fn run_in(case: &C19Case, nu: &mut Nu) -> Result<CaseInfo, Fail> {
             continue;
         };
         let (dframe, def, _) = &defs[di];
+        // the script's explicit `.append`: exactly one frame per call, stamped with THIS call
+        let sides: Vec<&WFrame> = frames
+            .iter()
+            .filter(|w| w.topic == "side.effect" && meta_of(w, "frame_id").as_deref() == Some(&c.frame.id))
+            .collect();
+        let want_sides = if def.explicit_append { 1 } else { 0 };
+        if sides.len() != want_sides {
+            return Err(cmd(format!(
+                "call {} of {n}: {} frames of its explicit `.append side.effect` carry its frame_id, expected {want_sides} (all side.effect stamps: {:?}); script:\n{}",
+                c.frame.id,
+                sides.len(),
+                frames.iter().filter(|w| w.topic == "side.effect").map(|w| meta_of(w, "frame_id")).collect::<Vec<_>>(),
+                render(def)
+            )));
+        }
+        for w in &sides {
+            if meta_of(w, "command_id").as_deref() != Some(&dframe.id) || meta_of(w, "note").as_deref() != Some("x") {
+                return Err(cmd(format!("call {} of {n}: explicit append carries meta {:?}", c.frame.id, w.meta)));
+            }
+            if w.ctx != c.frame.ctx {
+                return Err(Fail::new(Class::ScopeContext, format!("call {} of {n}: side.effect landed in context {} not the caller's", c.frame.id, w.ctx)));
+            }
+            let h = w.hash.clone().ok_or_else(|| cmd("side.effect without content".to_string()))?;
+            if nu.content(&h)? != b"side" {
+                return Err(Fail::new(Class::Cas, "side.effect content differs from what the script piped in".to_string()));
+            }
+        }
         let suffix = def.suffix.clone().unwrap_or(".recv".into());
         let terminals: Vec<&&WFrame> = mine
             .iter()
